@@ -128,6 +128,14 @@ func cmdGen(args []string) {
 		}
 		rs = append(rs, r)
 	}
+	for _, r := range rs {
+		for _, c := range r.Covers {
+			if *dump != "" && c.Name == *dump {
+				os.WriteFile("/var/tmp/hvc-dump.smt2", []byte(buildQuery(r, c, 1)+"(check-sat)\n"), 0644)
+				fmt.Println("cover query dumped")
+			}
+		}
+	}
 	res := solveAll(rs, *timeout, false, runtime.NumCPU())
 	nOK := 0
 	for _, s := range res {
